@@ -36,7 +36,10 @@ use futures::{
     io::{AsyncBufRead, AsyncRead, AsyncWrite, BufReader},
     ready,
 };
+#[cfg(not(libp2p_verif))]
 use futures_timer::Delay;
+#[cfg(libp2p_verif)]
+use libp2p_swarm::verif_delay::Delay;
 
 pub(crate) struct CopyFuture<S, D> {
     src: BufReader<S>,
